@@ -62,6 +62,8 @@ def run(rep):
     x7(rep, w)
     x8(rep, w)
     x9(rep, w)
+    x10(rep, w)
+    x11(rep, w)
 
 
 def x1(rep, w):
@@ -445,3 +447,102 @@ def x9(rep, w, rid='X9'):
                     'frame stay in use (e.g. a handler\'s globals resolve in the module that threw)', f.loc(f.blocks[bi]['t'].get('sp')))
     if n < 3:
         raise Broken('C08', 'floor', 'frame-list events found: %d' % n)
+
+
+OWNERS = ('yarel::vm::Vm', 'yarel::object::ObjFiber', 'yarel::object::CallFrame', 'yarel::object::ExcHandler')
+
+
+def field_accesses(w, f, depth=1):
+    """(reads, writes): sets of (owner ADT, field) touched by f and, one level down, by the ObjFiber helpers it calls"""
+    reads, writes = set(), set()
+
+    def scan_place(pl, into):
+        if not pl or not pl.get('p'):
+            return
+        ps = pl['p']
+        for i, e in enumerate(ps):
+            if isinstance(e, dict) and 'n' in e and 'f' in e:
+                bt = c01.base_type_before_last(f, {'l': pl['l'], 'p': ps[:i + 1]})
+                if bt in OWNERS:
+                    into.add((bt, e['n']))
+    for b in f.blocks:
+        for s_ in b['s']:
+            d = s_.get('d')
+            if d and d.get('p'):
+                # the last field of the destination is written, the ones before are only traversed
+                ps = d['p']
+                last = max((i for i, e in enumerate(ps) if isinstance(e, dict) and 'n' in e and 'f' in e), default=None)
+                if last is not None:
+                    bt = c01.base_type_before_last(f, {'l': d['l'], 'p': ps[:last + 1]})
+                    if bt in OWNERS and last == len(ps) - 1:
+                        writes.add((bt, ps[last]['n']))
+            rr = s_.get('r', {})
+            for o in [rr.get('o'), rr.get('a'), rr.get('b')] + list(rr.get('ops') or []):
+                if isinstance(o, dict):
+                    scan_place(op_place(o), reads)
+            if isinstance(rr.get('p'), dict):
+                if rr.get('rv') == 'ref' and rr.get('m'):
+                    scan_place(rr['p'], writes)    # &mut place: may be written through (Option::take, Vec::push ...)
+                scan_place(rr['p'], reads)
+        t = b['t']
+        for o in [t.get('d')] + list(t.get('args') or []):
+            if isinstance(o, dict):
+                scan_place(op_place(o), reads)
+    if depth > 0:
+        for bi, t in f.calls():
+            n = callee_name(t) or ''
+            g = w.fns.get(n)
+            if g is not None and (n.startswith('yarel::object::ObjFiber::') or n.startswith('yarel::object::ExcHandler::')):
+                r2, w2 = field_accesses(w, g, depth - 1)
+                reads |= r2
+                writes |= w2
+    return reads, writes
+
+
+def x10(rep, w):
+    """try statements nest dynamically (a finally block may call anything, including code with its own try/finally), so whatever a
+    finally block must do when it ends -- continue, resume a parked `return`, re-raise the exception that entered it -- has to be
+    remembered per entry, in something that nests like the handler stack does. State that is a single slot is overwritten or
+    consumed by the first try statement that completes while the block is still running."""
+    r = rep.rule('X10', 'the outcome pending while a finally block runs is stored per entry (a stack, like the handler stack), not in a single slot', floor=2)
+    ef = w.require_fn(VM + 'end_finally_impl', 'C08')
+    entries = [w.require_fn(VM + n, 'C08') for n in ('unwind_stack', 'jump_finally_impl', 'throw_impl')]
+    reads, _ = field_accesses(w, ef)
+    written = set()
+    for g in entries:
+        _, ws = field_accesses(w, g)
+        written |= ws
+    shared = sorted(reads & written)
+    if not shared:
+        raise Broken('C08', 'anchor', 'no state is passed from finally entry (unwind_stack / jump_finally_impl) to end_finally_impl')
+    c = w.yarel
+    for (adt, fld) in shared:
+        fty = None
+        for fd in c.adts[adt]['variants'][0]['fields']:
+            if fd['n'] == fld:
+                fty = c.tstr(fd['t'])
+        nests = fty is not None and (fty.startswith('std::vec::Vec<') or 'Stack<' in fty)
+        if (adt, fld) in (('yarel::vm::Vm', 'fiber'), ('yarel::vm::Vm', 'unsafe_fiber'), ('yarel::vm::Vm', 'ip'), ('yarel::object::ObjFiber', 'stack'),
+                          ('yarel::object::ObjFiber', 'frames'), ('yarel::object::ObjFiber', 'exc_handlers')):
+            continue     # the machine itself (active fiber, ip, stacks), not an outcome
+        r.check(nests, '%s.%s (%s)' % (adt.rsplit('::', 1)[-1], fld, fty), 'finally-entry state kept in a single slot of type %s: a try statement that completes while the finally block is '
+                'still running (in a callee or nested in the block) overwrites, clears or consumes it' % fty)
+
+
+def x11(rep, w, rid='X11', prop='C08'):
+    """a finally block can also be left by `return` (the return replaces the pending outcome): the in-flight state must not survive
+    the frame. Either it lives in the frame, or every function that removes the frame and carries on resets it."""
+    r = rep.rule(rid, 'leaving a finally block by `return` discards the exception that was in flight (no stale exception-in-flight state after the frame is gone)', floor=1)
+    ri = w.require_fn(VM + 'return_impl', prop)
+    ef = w.require_fn(VM + 'end_finally_impl', prop)
+    reads, _ = field_accesses(w, ef)
+    _, uw = field_accesses(w, w.require_fn(VM + 'unwind_stack', prop))
+    flags = sorted(x for x in reads & uw if x[0] in ('yarel::vm::Vm', 'yarel::object::ObjFiber') and x[1] not in ('fiber', 'unsafe_fiber', 'ip', 'stack', 'frames', 'exc_handlers', 'error_ip'))
+    if not flags:
+        r.ok('no exception-in-flight state outside the frames')
+        return
+    _, rw = field_accesses(w, ri)
+    for (adt, fld) in flags:
+        r.check((adt, fld) in rw, 'return_impl resets %s.%s' % (adt.rsplit('::', 1)[-1], fld),
+                'return_impl removes the frame whose finally block was running but leaves %s.%s as it was: the next EndFinally anywhere re-raises whatever is on top of the stack, '
+                'and the recorded throw site points into the discarded function' % (adt.rsplit('::', 1)[-1], fld), ri.loc())
